@@ -1,84 +1,167 @@
 (* Props/C17.v — property C17: tracing a context through a lattice finds exactly the describing
    concepts.  Only theorem statements; proofs are in Lemmas/C17.v.
 
-   [trace_hyps L t enum lt] (Lemmas/C17.v) bundles the hypotheses: [lt] is a strict order on the
-   concept indexes with greatest element [lt_top L], [lt_children L] is its cover relation (so L
-   may be a complete lattice or any pruned sub-list with its true covers), intents are antitone
-   along [lt], [t] is a well-formed table over the same attributes, [enum] is an arbitrary
-   enumeration order of a frozenset.  Objects of [t] are arbitrary rows: seen or unseen. *)
+   The model (Model/TraceContext.v) sees the traced context through [ext_of c] =
+   context.extension_i(intent of concept c); the theorems are proved ONCE for an arbitrary
+   satisfaction relation [sat] that is antitone along the order of the lattice
+   ([trace_hyps_gen]) and instantiated twice:
+     formal contexts      [trace_hyps]    : intents = attribute sets, sat = "has every attribute"
+     many-valued contexts [trace_hyps_mv] : intents = description dictionaries, sat = "every
+                                            description covers the object's value" (for interval
+                                            structures: a conjunction of interval containments)
+   In both, [lt] is a strict order on the concept indexes with greatest element [lt_top L],
+   [lt_children L] is its cover relation (so L may be a complete lattice or any pruned sub-list
+   with its true covers), intents are antitone along [lt], [enum] is an arbitrary enumeration
+   order of a frozenset.  Objects of the traced context are arbitrary rows: seen or unseen. *)
 From FCA Require Import Model.TraceContext Spec.Trace Lemmas.C12Order Lemmas.C17.
 
-Theorem C17_traced_exact : forall b L t enum lt, trace_hyps L t enum lt ->
+(* ---- for every antitone satisfaction relation *)
+Theorem C17_traced_exact_gen : forall ext_of L h enum lt sat, trace_hyps_gen ext_of L h enum lt sat ->
+  forall g, g < h -> same_set (ts_traced (trace_final ext_of L enum) g) (traced_gen sat (lt_len L) g).
+Proof. exact traced_exact_gen. Qed.
+Print Assumptions C17_traced_exact_gen.
+
+Theorem C17_bottom_exact_gen : forall ext_of L h enum lt sat, trace_hyps_gen ext_of L h enum lt sat ->
+  forall g, g < h -> same_set (ts_bottom (trace_final ext_of L enum) g) (bottoms_gen lt sat (lt_len L) g).
+Proof. exact bottom_exact_gen. Qed.
+Print Assumptions C17_bottom_exact_gen.
+
+(* the range(len(self)) bound is never the reason the loop stops: the queue is empty at the end *)
+Theorem C17_loop_bound_ok_gen : forall ext_of L h enum lt sat, trace_hyps_gen ext_of L h enum lt sat ->
+  ts_queue (trace_final ext_of L enum) = [].
+Proof. exact loop_bound_ok_gen. Qed.
+Print Assumptions C17_loop_bound_ok_gen.
+
+(* ---- formal contexts *)
+Theorem C17_traced_exact : forall b L intents t enum lt, trace_hyps L intents t enum lt ->
   forall g, g < height t ->
-  same_set (ts_traced (trace_final b L t enum) g) (traced_spec (lt_intents L) t g).
+  same_set (ts_traced (trace_final (formal_ext b intents t) L enum) g) (traced_spec intents t g).
 Proof. exact traced_exact'. Qed.
 Print Assumptions C17_traced_exact.
 
-Theorem C17_bottom_exact : forall b L t enum lt, trace_hyps L t enum lt ->
+Theorem C17_bottom_exact : forall b L intents t enum lt, trace_hyps L intents t enum lt ->
   forall g, g < height t ->
-  same_set (ts_bottom (trace_final b L t enum) g) (bottoms_spec lt (lt_intents L) t g).
+  same_set (ts_bottom (trace_final (formal_ext b intents t) L enum) g) (bottoms_spec lt intents t g).
 Proof. exact bottom_exact'. Qed.
 Print Assumptions C17_bottom_exact.
 
-(* the range(len(self)) bound is never the reason the loop stops: the queue is empty at the end *)
-Theorem C17_loop_bound_ok : forall b L t enum lt, trace_hyps L t enum lt ->
-  ts_queue (trace_final b L t enum) = [].
+Theorem C17_loop_bound_ok : forall b L intents t enum lt, trace_hyps L intents t enum lt ->
+  ts_queue (trace_final (formal_ext b intents t) L enum) = [].
 Proof. exact loop_bound_ok'. Qed.
 Print Assumptions C17_loop_bound_ok.
 
 (* the returned pair of dictionaries, by index *)
-Theorem C17_trace_by_index_exact : forall b L t enum lt,
-  trace_hyps L t enum lt -> lt_monotone L = false ->
-  exists bs trs, trace_by_index b L t enum = Done (bs, trs) /\
+Theorem C17_trace_by_index_exact : forall b L intents t enum lt,
+  trace_hyps L intents t enum lt -> lt_monotone L = false ->
+  exists bs trs, trace_by_index (formal_ext b intents t) L (height t) enum = Done (bs, trs) /\
     length bs = height t /\ length trs = height t /\
     forall g, g < height t ->
-      same_set (nth g bs []) (bottoms_spec lt (lt_intents L) t g) /\
-      same_set (nth g trs []) (traced_spec (lt_intents L) t g).
+      same_set (nth g bs []) (bottoms_spec lt intents t g) /\
+      same_set (nth g trs []) (traced_spec intents t g).
 Proof. exact trace_by_index_exact. Qed.
 Print Assumptions C17_trace_by_index_exact.
 
+(* ---- many-valued contexts (pattern lattices) *)
+Theorem C17_traced_exact_mv : forall L intents K enum lt, trace_hyps_mv L intents K enum lt ->
+  forall g, g < mv_n K ->
+  same_set (ts_traced (trace_final (mv_ext K intents) L enum) g)
+           (traced_gen (sat_mv intents (mv_cols K)) (length intents) g).
+Proof. exact traced_exact_mv. Qed.
+Print Assumptions C17_traced_exact_mv.
+
+Theorem C17_bottom_exact_mv : forall L intents K enum lt, trace_hyps_mv L intents K enum lt ->
+  forall g, g < mv_n K ->
+  same_set (ts_bottom (trace_final (mv_ext K intents) L enum) g)
+           (bottoms_gen lt (sat_mv intents (mv_cols K)) (length intents) g).
+Proof. exact bottom_exact_mv. Qed.
+Print Assumptions C17_bottom_exact_mv.
+
+Theorem C17_loop_bound_ok_mv : forall L intents K enum lt, trace_hyps_mv L intents K enum lt ->
+  ts_queue (trace_final (mv_ext K intents) L enum) = [].
+Proof. exact loop_bound_ok_mv. Qed.
+Print Assumptions C17_loop_bound_ok_mv.
+
+(* ---- key modes and refusal, whatever the kind of context *)
 (* by name = by index, re-keyed through object_names *)
-Theorem C17_keys : forall b L t enum names bs trs,
-  trace_by_index b L t enum = Done (bs, trs) ->
-  trace_by_name b L t enum names =
-    Done (combine (map (fun g => nth g names 0) (seq 0 (height t))) bs,
-          combine (map (fun g => nth g names 0) (seq 0 (height t))) trs).
+Theorem C17_keys : forall ext_of L h enum names bs trs,
+  trace_by_index ext_of L h enum = Done (bs, trs) ->
+  trace_by_name ext_of L h enum names =
+    Done (combine (map (fun g => nth g names 0) (seq 0 h)) bs,
+          combine (map (fun g => nth g names 0) (seq 0 h)) trs).
 Proof. exact keys_rekey. Qed.
 Print Assumptions C17_keys.
 
-Theorem C17_monotone_refused : forall b L t enum names,
+Theorem C17_monotone_refused : forall ext_of L h enum names,
   lt_monotone L = true ->
-  trace_by_index b L t enum = Fail 9 /\ trace_by_name b L t enum names = Fail 9.
+  trace_by_index ext_of L h enum = Fail 9 /\ trace_by_name ext_of L h enum names = Fail 9.
 Proof. intros. split; [apply monotone_refused_index | apply monotone_refused_name]; assumption. Qed.
 Print Assumptions C17_monotone_refused.
 
-(* Non-vacuity: the Sofia-like pruned list {top, {0,1}, {2}, bottom} of the concepts of a 3x3
-   context (the concepts {0}, {1} are missing, so it is not intersection-closed) with its true
+(* Non-vacuity (formal): the Sofia-like pruned list {top, {0,1}, {2}, bottom} of the concepts of a
+   3x3 context (the concepts {0}, {1} are missing, so it is not intersection-closed) with its true
    covers, traced on a context with an unseen row, meets every hypothesis; the result is not
    trivial. *)
 Definition ex_exts : list (list nat) := [[0; 1; 2]; [0; 1]; [2]; []].
+Definition ex_intents : list (list nat) := [[]; [0]; [1; 2]; [0; 1; 2]].
 Definition ex_L : lattice :=
-  {| lt_intents := [[]; [0]; [1; 2]; [0; 1; 2]];
+  {| lt_len := 4;
      lt_children := fun i => nth i [[1; 2]; [3]; [3]; []] [];
      lt_top := 0; lt_support := fun i => length (nth i ex_exts []); lt_monotone := false |}.
 Definition ex_t : table := [[true; false; false]; [true; true; true]; [false; false; true]].
 
-Example C17_nonvacuous :
-  trace_hyps ex_L ex_t (fun l => l) (incl_lt ex_exts) /\
-  trace_by_index BBitarray ex_L ex_t (fun l => l) = Done ([[1]; [3]; [0]], [[1; 0]; [3; 2; 1; 0]; [0]]).
+Lemma ex_order_hyps :
+  (forall l x, In x ((fun l : list nat => l) l) <-> In x l) /\
+  (forall l : list nat, NoDup l -> NoDup ((fun l => l) l)) /\
+  strict_order (incl_lt ex_exts) 4 /\ is_top (incl_lt ex_exts) 4 0 /\
+  (forall i, i < 4 -> forall x, In x (lt_children ex_L i) <-> In x (lower_covers (incl_lt ex_exts) 4 i)) /\
+  (forall i, i < 4 -> NoDup (lt_children ex_L i)).
 Proof.
-  split; [|vm_compute; reflexivity].
-  unfold trace_hyps. split; [intros; tauto|]. split; [intros l H; exact H|].
+  split; [intros; tauto|]. split; [intros l H; exact H|].
   split; [apply strict_orderb_spec; vm_compute; reflexivity|].
   split; [apply is_topb_spec; vm_compute; reflexivity|].
   split.
-  { intros i Hi x. change (lt_len ex_L) with 4 in *.
-    do 4 (destruct i as [|i]; [vm_compute; tauto|]). lia. }
-  split.
-  { intros i Hi. change (lt_len ex_L) with 4 in *.
-    do 4 (destruct i as [|i]; [vm_compute; repeat constructor; simpl; intuition congruence|]). lia. }
+  - intros i Hi x. do 4 (destruct i as [|i]; [vm_compute; tauto|]). lia.
+  - intros i Hi. do 4 (destruct i as [|i]; [vm_compute; repeat constructor; simpl; intuition congruence|]). lia.
+Qed.
+Print Assumptions ex_order_hyps.
+
+Example C17_nonvacuous :
+  trace_hyps ex_L ex_intents ex_t (fun l => l) (incl_lt ex_exts) /\
+  trace_by_index (formal_ext BBitarray ex_intents ex_t) ex_L 3 (fun l => l)
+    = Done ([[1]; [3]; [0]], [[1; 0]; [3; 2; 1; 0]; [0]]).
+Proof.
+  split; [|vm_compute; reflexivity].
+  destruct ex_order_hyps as [H1 [H2 [H3 [H4 [H5 H6]]]]].
+  unfold trace_hyps. split; [reflexivity|]. split; [exact H1|]. split; [exact H2|].
+  split; [exact H3|]. split; [exact H4|]. split; [exact H5|]. split; [exact H6|].
   split; [apply antitone_intentsb_spec; vm_compute; reflexivity|].
   split; [repeat constructor|].
   intros i Hi. change (lt_len ex_L) with 4 in *.
   do 4 (destruct i as [|i]; [intros x Hx; vm_compute in Hx; vm_compute; intuition lia|]). lia.
+Qed.
+
+(* Non-vacuity (many-valued): the same pruned order carried by interval descriptions of two
+   structures (one IntervalPS, one IntervalNumpyPS column); the traced context has an object that
+   fits only the top and one that fits nothing. *)
+Definition ex_mv_intents : list mv_intent :=
+  [ [(0, DIv (Some (1, 5)%Z)); (1, DIv (Some (0, 9)%Z))];
+    [(0, DIv (Some (1, 3)%Z)); (1, DIv (Some (0, 9)%Z))];
+    [(0, DIv (Some (5, 5)%Z)); (1, DIv (Some (2, 4)%Z))];
+    [(0, DIv None); (1, DIv None)] ].
+Definition ex_K : mvctx :=
+  mkMV 4 [CInterval [(2, 2); (5, 5); (4, 4); (7, 7)]%Z; CIntervalNp [(1, 8); (3, 3); (0, 9); (1, 1)]%Z]
+       [10; 11; 12; 13] [20; 21] [20; 21].
+
+Example C17_nonvacuous_mv :
+  trace_hyps_mv ex_L ex_mv_intents ex_K (fun l => l) (incl_lt ex_exts) /\
+  trace_by_index (mv_ext ex_K ex_mv_intents) ex_L 4 (fun l => l)
+    = Done ([[1]; [2]; [0]; []], [[1; 0]; [2; 0]; [0]; []]).
+Proof.
+  split; [|vm_compute; reflexivity].
+  destruct ex_order_hyps as [H1 [H2 [H3 [H4 [H5 H6]]]]].
+  unfold trace_hyps_mv. split; [reflexivity|]. split; [exact H1|]. split; [exact H2|].
+  split; [exact H3|]. split; [exact H4|]. split; [exact H5|]. split; [exact H6|].
+  split; [apply antitone_mvb_spec; vm_compute; reflexivity|].
+  intros i Hi. change (lt_len ex_L) with 4 in *.
+  do 4 (destruct i as [|i]; [repeat constructor; simpl; lia|]). lia.
 Qed.
